@@ -25,13 +25,13 @@ LEVEL_TEXT = (
     "a task is fired every dependency is a data node or finished and its denoted value is in the cache "
     "(deps_finished_before_start), the task function is applied to exactly its dependencies' values "
     "(data_passed_is_deps), and the batching arithmetic of fire_tasks neither loses nor duplicates a popped task "
-    "(fire_submits_all). Hypothesis StartOK on the start state as in C01 (validated by correspondence).")
+    "(fire_submits_all). The *_full versions hold for the state start_state_from_dask really builds (Sched.startState_ok).")
 LEVEL_NOTE = (
     "Wall-clock ordering inside real thread/process pools is not modelled (adversarial completion order is); it "
     "is checked on the real code only (`threaded` section: start(k) >= stop(dep) with perf_counter). Trusted: Lean "
     "kernel + standard axioms; the harness; dask.order; concurrent.futures.")
 TECHNIQUE = "Lean 4 invariant proof over an adversarial state machine + differential state-trace correspondence and execution-log oracles"
-ASSUMPTIONS = ["tasks are pure functions of their dependency values", "StartOK (see C01)"]
+ASSUMPTIONS = ["tasks are pure functions of their dependency values"]
 TRUSTED = ["concurrent.futures / threading deliver completions in SOME order"]
 
 
